@@ -75,9 +75,11 @@ def run_case(case):
     filters = make_filters(n, rng)
     if case.get("filters"):
         filters = dict((k, v) for k, v in filters.items() if k in case["filters"])
+    # age ranks (what TLC compares) and a scale: the order must hold for ages of any magnitude / spacing
     ages = [rng.randint(0, 3) for _ in range(n)]
+    age_scale = (1, 1e-6, 1e-9, 1e6, 0.5)[case["seed"] % 5]
     for nd in order:
-        nd.age = ages[ids[id(nd)] - 1]
+        nd.age = ages[ids[id(nd)] - 1] * age_scale
     evs = []
 
     def fn_node(vals):
